@@ -109,10 +109,12 @@ def gen_mill(rng, n, exact, illformed=False):
     if exact:
         q = rng.choice(cube_quaternions())
     else:
-        while True:
+        for _ in range(1000):
             q = tuple(rng.randint(-4, 4) for _ in range(4))
             if any(q):
                 break
+        else:
+            q = (1, 0, 0, 0)
     rot_fr = quat_to_rot_fr(q)
     rot = [[float(x) for x in row] for row in rot_fr]
     shift = [eighth(rng, -10, 10) for _ in range(3)]
@@ -420,7 +422,7 @@ def vector_field(fk, x, w, triples=()):
 
 def rand_geometry(rng, n):
     box = 1.5 + 0.6 * n ** (1 / 3) * 1.2
-    while True:
+    for _ in range(200):
         pts = []
         tries = 0
         while len(pts) < n and tries < 2000:
@@ -430,14 +432,17 @@ def rand_geometry(rng, n):
                 pts.append(c)
         if len(pts) == n:
             return np.array(pts)
+    return np.array([[1.0 * k, 0.75 * (k % 3), 0.5 * (k % 2)] for k in range(n)])      # (never reached in practice)
 
 
 def rand_rotation(rng):
-    while True:
+    for _ in range(1000):
         q = np.array([rng.gauss(0, 1) for _ in range(4)])
         nn = float(q @ q)
         if nn > 1e-3:
             break
+    else:
+        q, nn = np.array([1.0, 0.0, 0.0, 0.0]), 1.0
     q = q / math.sqrt(nn)
     a, b, c, d = q
     return np.array([[a * a + b * b - c * c - d * d, 2 * (b * c - a * d), 2 * (b * d + a * c)],
@@ -463,8 +468,12 @@ def gen_oracle_case(rng, mill=None, n=None, opts=None):
         shift = [0.0, 0.0, 0.0] if zero_shift else [rng.uniform(-10, 10) for _ in range(3)]
         p = list(range(n)) if ident_map else rand_perm(rng, n)
         if opts is not None and not ident_map and n >= 3:
-            while sorted(p) == p or [p[k] for k in p] == list(range(n)):      # a map that is not its own inverse
+            for _ in range(500):                                              # a map that is not its own inverse
+                if not (sorted(p) == p or [p[k] for k in p] == list(range(n))):
+                    break
                 p = rand_perm(rng, n)
+            else:
+                p = list(range(1, n)) + [0]
         mirror = rng.random() < 0.5 if opts is None else opts[3]
         mill = {"shift": shift, "rotation": rot.tolist(), "atommap": p, "mirror": mirror}
     n = len(mill["atommap"])
